@@ -340,6 +340,7 @@ pub fn reader_logical(rng: &mut Rng, comps: &[Comp]) -> Logical {
         },
         dedup: false,
         aux_seed: rng.next_u64(),
+        opts: Default::default(),
     }
 }
 
